@@ -379,3 +379,11 @@ def jobs(tier, seed):
     if tier == "thorough":
         jobs.append({"harness": "facade", "params": {"cfg": S.JS, "k": 2, "warm": True, "name": "js-k2"}, "weight": 60, "cpu_cap": 9000, "wall_cap": 10000})
     return jobs
+
+
+def thorough_extra(seed):
+    jobs = []
+    for first in range(len(HOPS)):
+        jobs.append({"harness": "history", "params": {"k": 3, "first": first}, "weight": 40, "cpu_cap": 6000, "wall_cap": 7200})
+    jobs.append({"harness": "facade", "params": {"cfg": S.JS, "k": 2, "warm": True, "name": "js-k2"}, "weight": 60, "cpu_cap": 9000, "wall_cap": 10000})
+    return jobs
